@@ -13,16 +13,32 @@
    interpreter.py Interpreter.__init__ (`run` registered only when not secure).
 
    The tables `Natives`, `ModuleBinds`, `BaseBinds`, ... are NOT written here:
-   the harness extracts them from the current source tree at check time
-   (native names from the `native == "..."` comparisons of bind_native, the
-   `secure` attribute read from each function object, `osTouching` measured by
-   invoking the function under an audit hook inside a canary directory, the
-   module tables by loading every bundled module) and passes them as JSON
-   (IOEnv.C09_DATA).                                                         *)
+   the harness extracts them from the current source tree at check time and
+   passes them as JSON (IOEnv.C09_DATA):
+   - "the names the binder knows" are found by TRYING: every string constant
+     of the package's sources, every bind_native argument of the bundled
+     modules and the name carried by every function class is handed to the
+     binder in front of an open gate (directly and through the language's
+     bind_native); the names that bind something are the names it knows,
+     however they are registered (comparison chain, table, helper);
+   - every function class of the package is a native of this table, whether
+     or not a name binds it (`known`): a function value of such a class met
+     anywhere in a secure interpreter is judged like the others;
+   - the `secure` attribute is read from each function object, `osTouching` is
+     measured by invoking the function under an audit hook inside a canary
+     directory with every argument tuple of SecureOps!CallShapes;
+   - the module tables are read off interpreters whose gate is held open.
+
+   Isolation: the decision of the gate is that of the interpreter the program
+   runs in.  The host may construct other interpreters of any configuration in
+   the same process, before or after this one (ConstructOther); nothing of
+   this interpreter's state changes and the gate goes on consulting its own
+   base flag.                                                               *)
 EXTENDS SecureOps, TLC, Json, IOUtils, SequencesExt
 
 CONSTANTS MaxLen,     \* program actions per behaviour in a secure interpreter
-          Export      \* TRUE: print every transition with the expected observation
+          Export,     \* TRUE: print every transition with the expected observation
+          OtherUntil  \* another interpreter may be constructed while fewer actions than this have run
 
 Data == JsonDeserialize(IOEnv.C09_DATA)
 
@@ -33,13 +49,14 @@ OsTouching(id) == Natives[id].osTouching
 IsFunc(id)     == Natives[id].isFunc
 FName(id)      == Natives[id].fname       \* the name the function object carries
 TakesAlias(id) == Natives[id].takesAlias  \* bind_native hands the alias on for this native
+Known(id)      == Natives[id].known       \* some name makes the binder bind a function of this class
 Modules        == DOMAIN Data.moduleBinds \* identifiers of the bundled modules
 ModuleBinds(m) == Elems(Data.moduleBinds[m])   \* native bindings a module's environment holds
 ModuleLoads(m) == Elems(Data.moduleLoads[m])   \* modules loaded by `require m` (m included)
 BaseBinds(leg) == Elems(IF leg THEN Data.baseBinds.legacy ELSE Data.baseBinds.plain)
 BootLoads(leg) == Elems(IF leg THEN Data.bootLoads.legacy ELSE Data.bootLoads.plain)
 HasRun         == Data.hasRun             \* the tree has a `run` built-in to register
-BinderIds      == Ids \ {"run"}            \* names the binder knows (`run` is registered, not bound)
+BinderIds      == {id \in Ids : Known(id)} \ {"run"}   \* names the binder knows (`run` is registered, not bound)
 \* The alphabet narrows with depth: the first action ranges over everything the
 \* binder knows, every module and every flag form; action number n+1 (n >= 1)
 \* over Data.levels[n] = [ids, mods, shadow, assign] (forbidden natives,
@@ -54,6 +71,11 @@ ModsAt(n)      == IF n = 0 THEN Modules ELSE Elems(Level(n).mods)
 ShadowAt(n)    == IF n = 0 THEN ShadowForms ELSE {sf \in ShadowForms : sf.form \in Elems(Level(n).shadow)}
 AssignAt(n)    == IF n = 0 THEN AssignForms ELSE AssignForms \cap Elems(Level(n).assign)
 SecureModes    == Elems(Data.secureModes)
+\* configurations "sl" (s, l in {"0", "1"}: secure, legacy) of the other interpreters the host constructs
+OtherConfigs   == Elems(Data.otherConfigs)
+\* module specs that name no module, tried as a first action (SecureOps!CoreSpecs unless the data narrows it)
+ForeignCore    == IF "foreignCore" \in DOMAIN Data THEN Elems(Data.foreignCore) ELSE CoreSpecs
+NoSpec         == [prefix |-> << >>, trav |-> << >>, target |-> "", clause |-> "", modpath |-> ""]
 FlagName       == "checkerlang_secure_mode"
 
 \* environment names (parenthesised: a module may itself be called `base`)
@@ -75,10 +97,11 @@ VARIABLES secure,   \* configuration: Interpreter(secure, legacy)
           steps,    \* program actions so far
           expand,   \* the last action belongs to level 1 (the state is explored further)
           last,     \* kind/form of the last action (keeps the flag forms apart)
+          latest,   \* the interpreter constructed most recently in this process: "self" or "sl"
           hist      \* the actions so far (witness; not part of the VIEW)
 
-vars == <<secure, legacy, flag, bound, reach, reach0, shadow, loaded, phase, steps, expand, last, hist>>
-View == <<secure, legacy, flag, bound, reach, reach0, shadow, loaded, phase, steps, expand, last>>
+vars == <<secure, legacy, flag, bound, reach, reach0, shadow, loaded, phase, steps, expand, last, latest, hist>>
+View == <<secure, legacy, flag, bound, reach, reach0, shadow, loaded, phase, steps, expand, last, latest>>
 
 Binding(name, id, priv) == [name |-> name, id |-> id, priv |-> priv]
 IdsOf(S)   == {b.id : b \in S}
@@ -91,7 +114,7 @@ Unbind(S, n) == {b \in S : b.name # n}
 Emit(tag, rec) == IF Export THEN PrintT("@@" \o tag \o "@@" \o ToJson(rec)) ELSE TRUE
 
 Act(a, env, id, alias, m, form) ==
-  [a |-> a, env |-> env, id |-> id, alias |-> alias, m |-> m, form |-> form]
+  [a |-> a, env |-> env, id |-> id, alias |-> alias, m |-> m, form |-> form, spec |-> NoSpec]
 
 -----------------------------------------------------------------------------
 Init ==
@@ -107,6 +130,7 @@ Init ==
   /\ steps = 0
   /\ expand = TRUE
   /\ last = "boot"
+  /\ latest = "self"
   /\ hist = << >>
 
 (* get_base_environment: the base script and the modules it requires bind
@@ -120,7 +144,7 @@ Boot ==
                  ELSE IF e \in BootLoads(legacy) THEN GateSet(ModuleBinds(e))
                  ELSE {}]
   /\ reach' = AllIds(bound')
-  /\ UNCHANGED <<secure, legacy, flag, reach0, shadow, steps, expand, last, hist>>
+  /\ UNCHANGED <<secure, legacy, flag, reach0, shadow, steps, expand, last, latest, hist>>
 
 (* Interpreter.__init__: `if not secure: put("run", FuncRun(self))` *)
 RegisterRun ==
@@ -131,7 +155,7 @@ RegisterRun ==
               ELSE bound
   /\ reach' = IF HasRun THEN reach \cup {"run"} ELSE reach
   /\ reach0' = reach'
-  /\ UNCHANGED <<secure, legacy, flag, shadow, loaded, steps, expand, last, hist>>
+  /\ UNCHANGED <<secure, legacy, flag, shadow, loaded, steps, expand, last, latest, hist>>
   /\ Emit("BOOT", [sec |-> secure, leg |-> legacy, flag |-> flag,
                    reach |-> SetToSeq(reach'), run |-> HasRun])
 
@@ -140,7 +164,7 @@ SkipRun ==
   /\ flag
   /\ phase' = "run"
   /\ reach0' = reach
-  /\ UNCHANGED <<secure, legacy, flag, bound, reach, shadow, loaded, steps, expand, last, hist>>
+  /\ UNCHANGED <<secure, legacy, flag, bound, reach, shadow, loaded, steps, expand, last, latest, hist>>
   /\ Emit("BOOT", [sec |-> secure, leg |-> legacy, flag |-> flag,
                    reach |-> SetToSeq(reach), run |-> FALSE])
 
@@ -185,14 +209,18 @@ BindNative(env, id, alias) ==
      IN /\ bound' = IF ok THEN [bound EXCEPT ![env] = Put(@, add)] ELSE bound
         /\ reach' = AllIds(bound')
         /\ shadow' = IF ok /\ alias = "flag" /\ TakesAlias(id) THEN shadow \cup {env} ELSE shadow
-  /\ UNCHANGED <<secure, legacy, flag, reach0, loaded, phase>>
+  /\ UNCHANGED <<secure, legacy, flag, reach0, loaded, phase, latest>>
   /\ Advance(Act("bind", env, id, alias, "", ""), id \in IdsAt(1), "bind")
   /\ EmitEdge("no")
 
-(* require m / require m unqualified, evaluated in the session. *)
-RequireBundled(m, form) ==
+(* require m / require m unqualified, evaluated in the session.  `spelling`:
+   the module named with a directory part ('x/m', 'x/../m', '/x/m', './m'):
+   bundled modules are looked up by file name only, so every spelling names
+   the same module (first action only). *)
+RequireBundled(m, form, spelling) ==
   /\ Prog
   /\ m \in ModsAt(steps)
+  /\ spelling # "plain" => steps = 0
   /\ LET newly == ModuleLoads(m) \ loaded
          exp   == {b \in GateSet(ModuleBinds(m)) : ~b.priv}
      IN /\ loaded' = loaded \cup newly
@@ -201,8 +229,38 @@ RequireBundled(m, form) ==
                        ELSE IF e = SessionEnv /\ form = "unq" THEN Put(bound[e], exp)
                        ELSE bound[e]]
         /\ reach' = AllIds(bound')
-  /\ UNCHANGED <<secure, legacy, flag, reach0, shadow, phase>>
-  /\ Advance(Act("require", SessionEnv, "", "", m, form), m \in ModsAt(1), "require")
+  /\ UNCHANGED <<secure, legacy, flag, reach0, shadow, phase, latest>>
+  /\ Advance([Act("require", SessionEnv, "", "", m, form) EXCEPT !.alias = spelling],
+             m \in ModsAt(1) /\ spelling = "plain", "require")
+  /\ EmitEdge("no")
+
+(* require '<prefix>/<traversal>/<target>' where the file name is not a module
+   (SecureOps!ForeignSpecs): the require fails, nothing is loaded, bound or
+   defined, and - judged on the recorded OS events - nothing outside the
+   module source directories is opened or probed.  First action only. *)
+RequireForeign(sp) ==
+  /\ Prog
+  /\ steps = 0
+  /\ sp \in ForeignCore
+  /\ UNCHANGED <<secure, legacy, flag, bound, reach, reach0, shadow, loaded, phase, latest>>
+  /\ Advance([Act("foreign", SessionEnv, "", "", "", sp.clause) EXCEPT !.spec = sp], FALSE, "foreign")
+  /\ EmitEdge("yes")
+
+(* The host constructs another interpreter in the same process: "after" this
+   one was constructed (before its first or, when OtherUntil allows, a later
+   program action) or "before" it (first entry of the history only; the replay
+   constructs the other one first).  Not a program action of this
+   interpreter: nothing it can observe changes. *)
+ConstructOther(cfg, when) ==
+  /\ Prog
+  /\ secure
+  /\ steps < OtherUntil
+  /\ when = "before" => steps = 0
+  /\ latest = "self"
+  /\ cfg \in OtherConfigs
+  /\ latest' = cfg
+  /\ UNCHANGED <<secure, legacy, flag, bound, reach, reach0, shadow, loaded, phase>>
+  /\ Advance(Act("other", SessionEnv, "", "", cfg, when), TRUE, "other:" \o when \o cfg)
   /\ EmitEdge("no")
 
 (* Every way of *defining* the flag name (def, destructuring def, parameter,
@@ -228,7 +286,7 @@ DefShadow(sf) ==
                                                                ![SessionEnv] = Put(@, {lk})]
                     ELSE [b0 EXCEPT ![SessionEnv] = Put(@, {lk})]
         /\ reach' = AllIds(bound')
-  /\ UNCHANGED <<secure, legacy, flag, reach0, loaded, phase>>
+  /\ UNCHANGED <<secure, legacy, flag, reach0, loaded, phase, latest>>
   /\ Advance(Act("shadow", sf.env, Probe, "", "", sf.form), sf \in ShadowAt(1), "shadow:" \o sf.form)
   /\ EmitEdge("any")
 
@@ -237,7 +295,7 @@ DefShadow(sf) ==
 AssignFlag(form) ==
   /\ Prog
   /\ form \in AssignAt(steps)
-  /\ UNCHANGED <<secure, legacy, flag, bound, reach, reach0, shadow, loaded, phase>>
+  /\ UNCHANGED <<secure, legacy, flag, bound, reach, reach0, shadow, loaded, phase, latest>>
   /\ Advance(Act("assign", SessionEnv, "", "", "", form), form \in AssignAt(1), "assign:" \o form)
   /\ EmitEdge("yes")
 
@@ -247,7 +305,9 @@ Next ==
   \/ SkipRun
   \/ \E env \in {SessionEnv, UserModEnv}, id \in BinderIds, alias \in {"none", "own", "flag"} :
         BindNative(env, id, alias)
-  \/ \E m \in Modules, form \in {"qual", "unq"} : RequireBundled(m, form)
+  \/ \E m \in Modules, form \in {"qual", "unq"}, sp \in RequireSpellings : RequireBundled(m, form, sp)
+  \/ \E sp \in ForeignCore : RequireForeign(sp)
+  \/ \E cfg \in OtherConfigs, when \in {"before", "after"} : ConstructOther(cfg, when)
   \/ \E sf \in ShadowForms : DefShadow(sf)
   \/ \E form \in AssignForms : AssignFlag(form)
 
@@ -268,6 +328,7 @@ TypeOK ==
   /\ shadow \subseteq Envs
   /\ loaded \subseteq Modules
   /\ steps \in 0..MaxLen
+  /\ latest \in {"self"} \cup OtherConfigs
 
 \* what is reachable is exactly what some environment binds
 ReachIsBound == reach = AllIds(bound)
@@ -298,5 +359,8 @@ RunOnlyWhenInsecure == Holds("RunOnlyWhenInsecure", flag => "run" \notin reach, 
 FlagIsConfig   == Holds("FlagIsConfig", flag = secure, << >>)
 ShadowNotBase  == Holds("ShadowNotBase", BaseEnv \notin shadow, << >>)
 FlagImmutable  == [][flag' = flag]_vars
+\* isolation: constructing another interpreter changes nothing of this one
+OthersChangeNothing ==
+  [][latest' # latest => <<flag, bound, reach, shadow, loaded>>' = <<flag, bound, reach, shadow, loaded>>]_vars
 
 =============================================================================
